@@ -107,8 +107,8 @@ func hostilePacket(r *core.Rand) (string, string) {
 			"3a0400017400",               // PUBLISH with dup+qos1 but no id room
 			"36050001740001",             // PUBLISH qos 3
 			"f000", "0000", "ffffffffff", // reserved types, overflowing varint
-			"30ffffff7f",                 // PUBLISH declaring 256 MiB
-			"c001aa",                     // PINGREQ with payload
+			"30ffffff7f", // PUBLISH declaring 256 MiB
+			"c001aa",     // PINGREQ with payload
 		}
 		s := strings.ReplaceAll(raws[r.Intn(len(raws))], " ", "")
 		return s, "raw " + s
